@@ -416,3 +416,42 @@ func zzC03aRead() {
 	}
 	vf.Assert("lock-free", vf.RUnlocked(&d.mu))
 }
+
+// C04.f: Downstream.resume keeps the stream's identity: the resume request names the original stream
+// id and alias, and ack ids continue where they were (they never restart).
+func zzC04fResumeKeepsAckIDs() {
+	w := zzNewDownWorld()
+	d := w.d
+	last := vf.U32("last.ackid")
+	vf.Assume(last < 0xFFFFFFF0)
+	d.chunkAckIDSequence = newSequenceNumberGenerator(last)
+	d.lastIssuedAckSequenceNumber = vf.U32("stale.field")
+	// the connection after the reconnect
+	tr2 := wire.ZZNewFakeTransport()
+	wc2 := wire.ZZNewClientConn(tr2, nil)
+	wire.ZZStartRequestLoop(wc2)
+	var reqs []*message.DownstreamResumeRequest
+	tr2.OnWrite = func(m message.Message) error {
+		if r, ok := m.(*message.DownstreamResumeRequest); ok {
+			reqs = append(reqs, r)
+			wire.ZZDeliverRequest(wc2, &message.DownstreamResumeResponse{RequestID: r.RequestID, ResultCode: message.ResultCodeSucceeded})
+		}
+		return nil
+	}
+	parent := &Conn{wireConn: wc2, logger: log.NewNop(), state: newConnState()}
+	d.Config.Filters = []*message.DownstreamFilter{{SourceNodeID: "node"}}
+	d.state.Swap(streamStatusResuming)
+	err := d.resume(parent)
+	vf.Assert("resume-ok", err == nil && d.state.Current() == streamStatusConnected)
+	vf.Assert("resume-request-names-original-id-and-alias", len(reqs) == 1 && reqs[0].StreamID == d.ID && reqs[0].DesiredStreamIDAlias == d.idAlias)
+	vf.Assert("uses-the-new-connection", d.wireConn == wc2)
+	// the next ack continues the numbering
+	d.resultAckBuffer = append(d.resultAckBuffer, &message.DownstreamChunkResult{SequenceNumberInUpstream: 1})
+	ferr := d.flushAck()
+	acks := zzAcks(tr2)
+	vf.Assert("ack-after-resume-on-the-new-connection", ferr == nil && len(acks) == 1)
+	if len(acks) == 1 {
+		vf.Assert("ack-ids-continue-across-resume", acks[0].AckID == last+1)
+	}
+	vf.Reach("end")
+}
